@@ -261,7 +261,9 @@ func (x *Exec) builtin(name string, call *ast.CallExpr, env *Env) []Term {
 			}
 			ln := x.W.SeqLen(cur)
 			nb := Store(x.W.SeqBase(cur), Arith("+", x.W.SeqOff(cur), ln), v)
+			prev := cur
 			cur = x.W.MkSeq(cur.Sort, nb, x.W.SeqOff(cur), Arith("+", ln, IntLit(1)))
+			cur = x.seqUpdateFacts(cur, prev, ln, v)
 		}
 		cur.GoT = st
 		return []Term{cur}
@@ -771,6 +773,9 @@ func (x *Exec) callByContract(fi *FuncInfo, fc *FuncContract, call *ast.CallExpr
 			pre.locals[g.Name] = x.freshOfTypeName(g.Name, g.Type, fi.Pkg.Name)
 			x.W.Note("ghost " + g.Name + " of " + fi.Key + " unbound at call site (universally quantified)")
 		}
+	}
+	for _, c := range fc.Lets {
+		pre.locals[c.Label] = x.named(c.Label, pre.Eval(c.Expr))
 	}
 	tag := "call:" + fi.Obj.Name()
 	for i, c := range fc.Requires {
